@@ -217,3 +217,38 @@ Proof.
       apply in_rev. eapply nth_error_In. exact Hnth.
   - rewrite rev_length. apply sqok_length; [exact (chain_nodup _ _ Hc)|split; [split|]; assumption].
 Qed.
+
+(* ---------------------------------------------------------------- shutdown *)
+Definition boot_count_last (p : store) (g0 : group) : option (N * N) :=
+  match boot p g0 with BootOk r => Some (count r, gheight (last r)) | _ => None end.
+
+(* the store closed under a running save after its first two writes (the code before the repair of
+   Close): after the restart Count() = 2 but the last group has height 2 *)
+Lemma close_inside_save_refuted :
+  let s := fst (run true wg0 (init wg0) [Add wg1]) in
+  boot_count_last (st (save_sub 2 s (mkG 3 2 1 0))) wg0 = Some (2, 2) /\
+  forall s', InvW wg0 s' -> (count s', gheight (last s')) <> (2, 2).
+Proof.
+  cbn zeta. split; [reflexivity|]. intros s' HI E.
+  pose proof (inv_count_last _ _ _ HI) as Hc. injection E as E1 E2. lia.
+Qed.
+
+(* ... and under a running remove after its first write: the restart panics (the last group's record
+   is gone, "gcurrent" still names it) *)
+Lemma close_inside_remove_refuted :
+  let s := fst (run true wg0 (init wg0) [Add wg1]) in
+  boot (st (remove_sub 1 s (last s))) wg0 = BootPanic.
+Proof. reflexivity. Qed.
+
+(* a Close that rewrites "gcount" from the count field read before a concurrent remove(last) and written
+   after it: after the restart Count() = 3 but the last group has height 1 *)
+Lemma close_stale_count_refuted :
+  let s := fst (run true wg0 (init wg0) [Add wg1; Add (mkG 3 2 1 0)]) in
+  let c := count s in
+  let s' := fst (step true wg0 s RemoveLast) in
+  boot_count_last (close_writes c (gid (last s')) (st s')) wg0 = Some (3, 1) /\
+  forall s'', InvW wg0 s'' -> (count s'', gheight (last s'')) <> (3, 1).
+Proof.
+  cbn zeta. split; [reflexivity|]. intros s' HI E.
+  pose proof (inv_count_last _ _ _ HI) as Hc. injection E as E1 E2. lia.
+Qed.
